@@ -156,3 +156,21 @@ Definition run_step_rasters (m : model_cfg) (inp : inputs) (step : Z) (w : world
   run_step (raster_entry_cfg m)
            (mkinputs (in_temperatures inp) (in_survival inp) (in_totpop inp)
                      (in_movements inp) []) step w t.
+
+(* a run: consecutive steps, each with its own inputs, weather raster (set by
+   the caller through Environment::update_weather_coefficient before the step)
+   and tape of random outcomes *)
+Definition with_weather (w : world) (wc : option (list Q)) : world :=
+  mkworld (w_hosts w) (w_disp w) (w_estab w) (w_outside w) (w_soil w) wc
+          (w_totpop w) (w_other w) (w_temp w) (w_last_index w).
+
+Fixpoint run_many (m : model_cfg) (inp : Z -> inputs) (weather : Z -> option (list Q))
+         (tapes : list tape) (step : Z) (w : world) : result world :=
+  match tapes with
+  | [] => Ok w
+  | t :: r =>
+    match fst (run_step m (inp step) step (with_weather w (weather step)) t) with
+    | Ok (_, w', _) => run_many m inp weather r (step + 1) w'
+    | Err e => Err e
+    end
+  end.
